@@ -425,6 +425,12 @@ def write_variants(rng, tier, lanes=("S", "Aa", "Ta")):
                     "declare_wrong": -250})
         out.append({"lane": lane, "n": 0, "how": "streamed", "keyed": False, "chunks": 1, "declare": True,
                     "declare_wrong": 4096})
+        # a declared size ABOVE the memory-map threshold with fewer bytes written (no map exists
+        # to be cut back: whatever was preallocated must not be published)
+        out.append({"lane": lane, "n": 600, "how": "streamed", "keyed": False, "chunks": 2, "declare": True,
+                    "declare_wrong": MIB + 4096})
+        out.append({"lane": lane, "n": 600, "how": "streamed", "keyed": True, "chunks": 1, "declare": True,
+                    "declare_wrong": 2 * MIB})
         out.append({"lane": lane, "n": 900, "how": "streamed", "keyed": True, "chunks": 2, "declare": True,
                     "declare_wrong": -1, "algo": "sha512"})
         out.append({"lane": lane, "n": 300, "how": "oneshot", "keyed": True, "warm": "other"})
